@@ -926,4 +926,7 @@ class ExprMixin:
             if m:
                 self.call_function(m[0], [obj, idx], {}, t, cls=m[1])
                 return
+            if isinstance(obj.ty, TRef) and self.reg.get(f"ext:{obj.ty.cls}.__delitem__") is not None:
+                self.call_extern(f"ext:{obj.ty.cls}.__delitem__", [obj, idx], {}, t, None)
+                return
         raise Unsupported(f"del item of {obj!r}")
